@@ -190,7 +190,7 @@ Denotes(dt, p, prev, v) ==
 VARIABLES shape,     \* constant after Init
           cache,     \* cache[m][a]: current value of every parameter
           last       \* outcome of the last request:
-                     \*   [req, reply, calls, hookarg, upd, snap]
+                     \*   [req, reply, calls, hookarg, upd, hassnap, snap]
 vars == <<shape, cache, last>>
 
 NoDt == [t |-> "none"]
@@ -236,9 +236,9 @@ Chain(hooks, i, v, lim) ==
 NoCalls == <<>>
 Call(op, fn, arg) == [op |-> op, fn |-> fn, arg |-> arg]     \* op: "write" | "cmd" | "read"
 \* upd: the update a change / read may announce (Null: none); snap: the SET of snapshot updates an activate
-\* delivers (Null for the other requests)
+\* delivers (hassnap: the request is a served activate)
 Outcome(req, reply, calls, hookarg, upd) ==
-  [req |-> req, reply |-> reply, calls |-> calls, hookarg |-> hookarg, upd |-> upd, snap |-> Null]
+  [req |-> req, reply |-> reply, calls |-> calls, hookarg |-> hookarg, upd |-> upd, hassnap |-> FALSE, snap |-> {}]
 Refused(req, classes) == Outcome(req, Bad(classes), NoCalls, Null, Null)
 Res(out, c) == [out |-> out, cache |-> c]
 
@@ -306,7 +306,8 @@ ActivateRes(c, req) ==
            sel == IF req.name = "" THEN exported ELSE {a \in exported : accs[a].wire = req.name}
        IN IF sel = {} /\ req.name # "" THEN Res(Refused(req, {"NoSuchParameter"}), c)
           ELSE Res([Outcome(req, Ok(Null), NoCalls, Null, Null)
-                    EXCEPT !.snap = {[mod |-> req.mod, name |-> accs[a].wire, v |-> c[req.mod][a]] : a \in sel}], c)
+                    EXCEPT !.hassnap = TRUE,
+                           !.snap = {[mod |-> req.mod, name |-> accs[a].wire, v |-> c[req.mod][a]] : a \in sel}], c)
 
 Result(c, req) ==
   CASE req.act = "change" -> ChangeRes(c, req)
@@ -404,7 +405,7 @@ CacheInDatainfo == \A m \in DOMAIN shape : \A a \in Params(m) : InDatainfo(shape
 ConstantsHold ==
   /\ \A m \in DOMAIN shape : \A a \in Params(m) : shape[m][a].const # Null => cache[m][a] = shape[m][a].const
   /\ (last.req.act = "read" /\ last.reply.ok /\ AccOf(last.req).const # Null) => last.reply.v = AccOf(last.req).const
-  /\ last.snap # Null => \A u \in last.snap : \A a \in DOMAIN shape[u.mod] :
+  /\ \A u \in last.snap : \A a \in DOMAIN shape[u.mod] :
         (shape[u.mod][a].wire = u.name /\ shape[u.mod][a].kind = "param" /\ shape[u.mod][a].const # Null)
            => u.v = shape[u.mod][a].const
 Frame ==
